@@ -660,6 +660,48 @@ func (e *Env) call(x ECall) EVal {
 			return EVal{T: c}
 		}
 		return EVal{T: IntLit(0)}
+	case "lastresult":
+		// lastresult("designator"[, i]): i-th result of the most recent call to designator on this path
+		name := ""
+		if sv, ok := x.Args[0].(EStr); ok {
+			name = sv.V
+		} else {
+			name = exprName(x.Args[0])
+		}
+		idx := 0
+		if len(x.Args) > 1 {
+			if iv, ok := x.Args[1].(EInt); ok {
+				fmt.Sscanf(iv.V, "%d", &idx)
+			}
+		}
+		for i := len(e.st.Calls) - 1; i >= 0; i-- {
+			ev := e.st.Calls[i]
+			for _, d := range ev.Desigs {
+				if d == name {
+					if idx < len(ev.Res) {
+						return EVal{T: ev.Res[idx]}
+					}
+					efail("lastresult: call to %s has no result %d", name, idx)
+				}
+			}
+		}
+		efail("lastresult: no call to %q on this path", name)
+	case "called":
+		// called("designator"): at least one call on this path (syntactic, per path)
+		name := ""
+		if sv, ok := x.Args[0].(EStr); ok {
+			name = sv.V
+		} else {
+			name = exprName(x.Args[0])
+		}
+		for _, ev := range e.st.Calls {
+			for _, d := range ev.Desigs {
+				if d == name {
+					return EVal{T: True}
+				}
+			}
+		}
+		return EVal{T: False}
 	case "fresh":
 		v := arg(0)
 		if e.assuming {
@@ -776,6 +818,24 @@ func (e *Env) call(x ECall) EVal {
 		n.depth = e.depth + 1
 		return n.eval(m.Body)
 	}
+	if g, ok := u.P.Ghosts[x.Fn]; ok && g.State {
+		if len(x.Args) != 1 {
+			efail("ghost state %s takes one argument", x.Fn)
+		}
+		rs, rt := sortByName(u, g.Result)
+		v := arg(0)
+		if v.T.Sort != SV {
+			efail("ghost state %s: argument must be a reference", x.Fn)
+		}
+		gv := u.ghostGet(e.st, "u_"+g.Name, rs, v.T)
+		if g.Name == "rd_pos" {
+			// representation invariant of the ghost byte stream (every update is made by an
+			// assumed reader contract that preserves it)
+			u.Fun("gh_rd_tot", []Sort{SV}, SInt)
+			e.st.Assume(And(Le(IntLit(0), gv), Le(gv, App("gh_rd_tot", SInt, v.T))))
+		}
+		return EVal{T: gv, Ty: rt}
+	}
 	if g, ok := u.P.Ghosts[x.Fn]; ok {
 		if len(g.Params) != len(x.Args) {
 			efail("ghost %s: wrong number of arguments", x.Fn)
@@ -796,6 +856,30 @@ func (e *Env) call(x ECall) EVal {
 		t := App("gh_"+g.Name, rs, args...)
 		if rs == SStr {
 			u.Axiom(Ge(App("slen", SInt, t), IntLit(0)))
+		}
+		if len(args) == 1 {
+			for _, tr := range u.P.axTriggers[g.Name] {
+				key := fmt.Sprintf("axinst:%d:%s", tr.id, args[0])
+				if u.declS[key] {
+					continue
+				}
+				u.declS[key] = true
+				sub := e.with(map[string]EVal{tr.v: {T: args[0]}})
+				sub.assuming = true
+				func() {
+					defer func() {
+						if r := recover(); r != nil {
+							if _, ok := r.(evalError); !ok {
+								panic(r)
+							}
+						}
+					}()
+					inst := sub.eval(tr.body)
+					if inst.T.Sort == SBool {
+						u.Axiom(inst.T)
+					}
+				}()
+			}
 		}
 		if rt != nil {
 			if lo, hi, ok := intRange(rt); ok && g.Result != "int" {
